@@ -124,6 +124,45 @@ class Repo:
         for m in self.modules.values():
             for c in m.classes.values():
                 self._expand_partialmethods(m, c)
+                self._expand_method_factories(m, c)
+
+    def _expand_method_factories(self, m: Module, c: "ClassInfo"):
+        """NAME = factory(...) in a class body, where `factory` is an in-repo function that returns a function it defines
+        (a closure factory for methods), is a method; it is modelled by
+            def NAME(self, *args, **kwargs): return factory(...)(self, *args, **kwargs)"""
+        for name, value in list(c.assigns.items()):
+            if not isinstance(value, ast.Call):
+                continue
+            q = self.resolve_expr(m, value.func)
+            if not q or "." not in q:
+                continue
+            fm, fname = q.rsplit(".", 1)
+            fmod = self.modules.get(fm)
+            if fmod is None or fname not in fmod.functions:
+                continue
+            fdef = fmod.functions[fname]
+            inner = {n.name for n in fdef.body if isinstance(n, ast.FunctionDef)}
+            returns_inner = any(isinstance(n, ast.Return) and ((isinstance(n.value, ast.Name) and n.value.id in inner) or isinstance(n.value, ast.Lambda))
+                                for n in ast.walk(fdef))
+            if not returns_inner:
+                continue
+            call = ast.Call(func=value, args=[ast.Name(id="self", ctx=ast.Load()), ast.Starred(value=ast.Name(id="args", ctx=ast.Load()), ctx=ast.Load())],
+                            keywords=[ast.keyword(arg=None, value=ast.Name(id="kwargs", ctx=ast.Load()))])
+            fn = ast.FunctionDef(name=name, args=ast.arguments(posonlyargs=[], args=[ast.arg(arg="self")], vararg=ast.arg(arg="args"),
+                                                                kwonlyargs=[], kw_defaults=[], kwarg=ast.arg(arg="kwargs"), defaults=[]),
+                                 body=[ast.Return(value=call)], decorator_list=[], returns=None, type_comment=None)
+            try:
+                fn.type_params = []  # type: ignore[attr-defined]
+            except Exception:
+                pass
+            ast.copy_location(fn, value)
+            for n in ast.walk(fn):
+                if not hasattr(n, "lineno"):
+                    ast.copy_location(n, value)
+            ast.fix_missing_locations(fn)
+            c.methods[name] = fn
+            del c.assigns[name]
+            c.all_defs = [(n, (fn if n == name else d)) for n, d in c.all_defs]
 
     def _expand_partialmethods(self, m: Module, c: "ClassInfo"):
         """NAME = functools.partialmethod(TARGET, *a, **kw) in a class body is a method; it is modelled by the
